@@ -280,6 +280,10 @@ def gen_command(rng, cls, short=False):
         if rng.random() < 0.5:
             args = rng.choice([(), (1,), (1, 2), ("x",), (1, "y", 3.5), ([1, 2],), ([1, 2], {"a": [3]})])
             text.append(opt("--args", "-a") + " " + lit(args))
+            if rng.random() < 0.08:
+                # a literal with an escape sequence Python does not know: still a valid literal ('\\d' is backslash + d)
+                args = ("\\d+",)
+                text[-1] = opt("--args", "-a") + " ('\\d+',)"
         if rng.random() < 0.4:
             kwargs = rng.choice([{}, {"a": 1}, {"a": 1, "b": "z"}])
             text.append(opt("--kwargs", "-k") + " " + lit(kwargs))
@@ -551,7 +555,7 @@ def invalid_line(rng, cls, token):
                        f"pool-size {bad}", f"cancel {bad}", f"starmap {W}work [(1,2)] --num-concurrent {bad}"])
 
 
-JUNK = ["==SUPPRESS==", "--", "-", "--zz", "-x", "'", "\"", "((", "[1,", "{'a':}", "9" * 30, "éü中", "a=b", "%s", "$(ls)",
+JUNK = ["['\\d']", "'\\w+'", "==SUPPRESS==", "--", "-", "--zz", "-x", "'", "\"", "((", "[1,", "{'a':}", "9" * 30, "éü中", "a=b", "%s", "$(ls)",
         "None", "True", "-0", "1e9", "tpsim.nope.x", "os.system", "..", "apply", "-h", "--help", "\t", "\\", "@file"]
 
 
